@@ -227,8 +227,10 @@ func c12Predecessors() [][]byte {
 	return c12Preds
 }
 
+var c12DefaultFields = []string{"dfield", " dfl", "body\n", "my field", "\u00fcn\u00ef", "a\\b", "\u00a0x\u3000", "AND"}
+
 func c12Check(ctx *core.Ctx, kind, in string) {
-	for _, df := range []string{"", "dfield"} {
+	for _, df := range []string{"", c12DefaultFields[ctx.Index()%len(c12DefaultFields)]} {
 		e, err, ok := parse(ctx, in, df)
 		if !ok || err != nil {
 			continue
